@@ -266,3 +266,108 @@ Proof.
       rewrite (Hk k' A), (Hv v' B), (IHr r' C). reflexivity.
   - reflexivity.
 Qed.
+
+(* ---------------------------------------------------------------------------------------------- *)
+(* one simulation theorem for the generic loader: two node algebras related operation by operation *)
+(* stay related through every run (same panic site, related documents / stacks / anchors)          *)
+(* ---------------------------------------------------------------------------------------------- *)
+Section Simulation.
+  Variables A B : Type.
+  Variable OA : ops A.
+  Variable OB : ops B.
+  Variable Q : A -> B -> Prop.
+  Hypothesis Q_scalar : forall v st tg sp, Q (o_scalar OA v st tg sp) (o_scalar OB v st tg sp).
+  Hypothesis Q_seq : forall sp, Q (o_seq OA sp) (o_seq OB sp).
+  Hypothesis Q_map : forall sp, Q (o_map OA sp) (o_map OB sp).
+  Hypothesis Q_bad : forall sp, Q (o_bad OA sp) (o_bad OB sp).
+  Hypothesis Q_respan : forall a b sp, Q a b -> Q (o_respan OA a sp) (o_respan OB b sp).
+  Hypothesis Q_kind : forall a b, Q a b -> o_kind OA a = o_kind OB b.
+  Hypothesis Q_push : forall a b x y, Q a b -> Q x y -> o_kind OA a = KSeq -> Q (o_push OA a x) (o_push OB b y).
+  Hypothesis Q_insert : forall a b k k' v v', Q a b -> Q k k' -> Q v v' -> o_kind OA a = KMap ->
+                                              Q (o_insert OA a k v) (o_insert OB b k' v').
+
+  Definition Qf (x : A * N) (y : B * N) : Prop := Q (fst x) (fst y) /\ snd x = snd y.
+  Definition Qa (x : N * A) (y : N * B) : Prop := fst x = fst y /\ Q (snd x) (snd y).
+  Definition Qo (x : option A) (y : option B) : Prop :=
+    match x, y with None, None => True | Some a, Some b => Q a b | _, _ => False end.
+  Definition SR (sa : gl A) (sb : gl B) : Prop :=
+    Forall2 Q (g_docs sa) (g_docs sb) /\ Forall2 Qf (g_stack sa) (g_stack sb) /\
+    Forall2 Qo (g_keys sa) (g_keys sb) /\ Forall2 Qa (g_anchors sa) (g_anchors sb).
+  Definition RR (ra : gres A) (rb : gres B) : Prop :=
+    match ra, rb with GOk a, GOk b => SR a b | GPanic n, GPanic m => n = m | _, _ => False end.
+
+  Lemma sim_get id la lb : Forall2 Qa la lb -> Qo (g_get id la) (g_get id lb).
+  Proof.
+    induction 1 as [|[i a] [j b] la lb [E H] _ IH]; [exact I|].
+    cbn [fst snd] in E, H. subst j. cbn [g_get]. destruct (N.eqb i id); [exact H|exact IH].
+  Qed.
+
+  Lemma sim_insert da sa ka aa db sb kb ab x y aid :
+    SR (Build_gl da sa ka aa) (Build_gl db sb kb ab) -> Q x y ->
+    RR (g_insert_new_node OA (Build_gl da sa ka aa) x aid) (g_insert_new_node OB (Build_gl db sb kb ab) y aid).
+  Proof.
+    intros [Hd [Hs [Hk Ha]]] Hxy. cbn [g_docs g_stack g_keys g_anchors] in Hd, Hs, Hk, Ha.
+    unfold g_insert_new_node. cbn [g_docs g_stack g_keys g_anchors].
+    assert (Han : Forall2 Qa (if (0 <? aid)%N then (aid, x) :: aa else aa) (if (0 <? aid)%N then (aid, y) :: ab else ab)).
+    { destruct (0 <? aid)%N; [constructor; [split; [reflexivity|exact Hxy]|exact Ha]|exact Ha]. }
+    inversion Hs as [|[pa ia] [pb ib] ra rb [Hp Hi] Hr]; subst.
+    - cbn. repeat split; try assumption. constructor; [split; [exact Hxy|reflexivity]|constructor].
+    - cbn [fst snd] in Hp, Hi. subst ib. rewrite <- (Q_kind pa pb Hp).
+      destruct (o_kind OA pa) eqn:Ek.
+      + cbn. repeat split; try assumption. constructor; [|exact Hr]. split; [|reflexivity].
+        cbn [fst]. apply Q_push; assumption.
+      + inversion Hk as [|oa ob ka' kb' Ho Hk']; subst; [reflexivity|].
+        destruct oa as [keya|], ob as [keyb|]; cbn [Qo] in Ho; try contradiction.
+        * cbn. repeat split; try assumption.
+          -- constructor; [|exact Hr]. split; [|reflexivity]. cbn [fst]. apply Q_insert; assumption.
+          -- constructor; [exact I|exact Hk'].
+        * cbn. repeat split; try assumption.
+          -- constructor; [split; [exact Hp|reflexivity]|exact Hr].
+          -- constructor; [exact Hxy|exact Hk'].
+      + cbn. repeat split; try assumption. constructor; [split; [exact Hp|reflexivity]|exact Hr].
+  Qed.
+
+  Lemma sim_event sa sb e : SR sa sb -> RR (g_on_event OA sa e) (g_on_event OB sb e).
+  Proof.
+    destruct sa as [da sa ka aa], sb as [db sb kb ab]. intros H. pose proof H as [Hd [Hs [Hk Ha]]].
+    cbn [g_docs g_stack g_keys g_anchors] in Hd, Hs, Hk, Ha.
+    destruct e as [ev sp]. destruct ev; cbn [g_on_event g_docs g_stack g_keys g_anchors]; try exact H.
+    - (* DocumentEnd *)
+      inversion Hs as [|[pa ia] [pb ib] ra rb [Hp Hi] Hr]; subst.
+      + cbn. repeat split; try assumption. constructor; [apply Q_bad|exact Hd].
+      + inversion Hr; subst; [|reflexivity].
+        cbn. repeat split; try assumption. constructor; [exact Hp|exact Hd].
+    - (* Alias *)
+      apply sim_insert; [exact H|].
+      pose proof (sim_get id aa ab Ha) as Hg.
+      destruct (g_get id aa), (g_get id ab); cbn [Qo] in Hg; try contradiction; [apply Q_respan; exact Hg|apply Q_bad].
+    - (* Scalar *) apply sim_insert; [exact H|apply Q_scalar].
+    - (* SequenceStart *)
+      cbn. repeat split; try assumption. constructor; [split; [apply Q_seq|reflexivity]|exact Hs].
+    - (* SequenceEnd *)
+      inversion Hs as [|[pa ia] [pb ib] ra rb [Hp Hi] Hr]; subst; [reflexivity|].
+      cbn [fst snd] in Hp, Hi. subst ib. apply sim_insert; [|exact Hp].
+      repeat split; assumption.
+    - (* MappingStart *)
+      cbn. repeat split; try assumption.
+      + constructor; [split; [apply Q_map|reflexivity]|exact Hs].
+      + constructor; [exact I|exact Hk].
+    - (* MappingEnd *)
+      inversion Hk as [|oa ob ka' kb' Ho Hk']; subst; [reflexivity|].
+      inversion Hs as [|[pa ia] [pb ib] ra rb [Hp Hi] Hr]; subst; [reflexivity|].
+      cbn [fst snd] in Hp, Hi. subst ib. apply sim_insert; [|exact Hp].
+      repeat split; assumption.
+  Qed.
+
+  Theorem sim_load evs : forall sa sb, SR sa sb -> RR (g_load OA evs sa) (g_load OB evs sb).
+  Proof.
+    induction evs as [|e r IH]; intros sa sb H; cbn [g_load]; [exact H|].
+    pose proof (sim_event sa sb e H) as He.
+    destruct (g_on_event OA sa e) as [sa'|n], (g_on_event OB sb e) as [sb'|m]; cbn [RR] in He; try contradiction.
+    - apply IH; exact He.
+    - exact He.
+  Qed.
+
+  Lemma SR_g0 : SR g0 g0.
+  Proof. repeat split; constructor. Qed.
+End Simulation.
